@@ -1102,14 +1102,17 @@ func buildGX(r *rng, o gxOpts) *GX {
 			return &GX{Desc: desc, Gen: rapid.Deferred(func() *rapid.Generator[any] { return e.Gen }), Cmp: e.Cmp, Int: e.Int, Rej: e.Rej, post: e.post, Check: e.Check}
 		}
 		var node *rapid.Generator[any]
+		// nodes carry the identity of their tree: a leaf may itself be a node of ANOTHER recursive tree
+		// (RecTree nested in RecTree) and must then be judged as a leaf
+		treeID := int64(r.next() >> 1) // deterministic in the construction seed: equal trees have equal ids
 		node = rapid.OneOf(
 			e.Gen,
-			rapid.Map(rapid.SliceOfN(rapid.Deferred(func() *rapid.Generator[any] { return node }), 0, 2), func(s []any) any { return recNode{s} }),
+			rapid.Map(rapid.SliceOfN(rapid.Deferred(func() *rapid.Generator[any] { return node }), 0, 2), func(s []any) any { return recNode{treeID, s} }),
 		)
 		desc := fmt.Sprintf("RecTree(%s)", e.Desc)
 		var chk func(v any, d int) string
 		chk = func(v any, d int) string {
-			if n, ok := v.(recNode); ok {
+			if n, ok := v.(recNode); ok && n.tree == treeID {
 				if len(n.kids) > 2 {
 					return desc + ": node with more than 2 children"
 				}
@@ -1171,7 +1174,10 @@ func buildGX(r *rng, o gxOpts) *GX {
 	}
 }
 
-type recNode struct{ kids []any }
+type recNode struct {
+	tree int64
+	kids []any
+}
 type customVal struct{ parts []any }
 
 // gxRejecting returns one of the rejection-heavy expression families named in
